@@ -129,8 +129,9 @@ def case_term(reads, k, pref, bridging, result, items):
 # case = (reads, pref, n, k, bridging, trace, result)
 PROJ = ("let '(reads, pref, n, k, bridging, t, result) := c in ")
 CHECKS = {
-    "L1cap": f"fun c => {PROJ} subset_ok reads result && cap_ok reads n k result",
-    "L1max": f"fun c => {PROJ} maximal_ok reads n k result",
+    # cap_ok / maximal_ok with the span counts tabulated once (C07_fast_evaluators_agree: the same predicates)
+    "L1cap": f"fun c => {PROJ} subset_ok reads result && cap_ok_fast reads n k result",
+    "L1max": f"fun c => {PROJ} maximal_ok_fast reads n k result",
     # the model of the code (after fix d6f31a2: preferred reads are removed from the main phase)
     "L2": f"fun c => {PROJ} replay_ok PrefRepaired reads pref n k bridging t result",
     # classification only: does the case behave like the pre-fix rule (preferred reads popped again)?
@@ -171,10 +172,11 @@ def gen_exhaustive(maxreads, nvars):
 
 def gen_random(rng, count):
     for _ in range(count):
-        nv = rng.randint(2, 14) if rng.random() < 0.9 else rng.randint(15, 40)
+        r = rng.random()
+        nv = rng.randint(2, 14) if r < 0.88 else rng.randint(15, 40) if r < 0.97 else rng.choice([66, 70, 130, 140, 260])
         span = rng.choice([400, 400, 100000, 250000000])       # small and genome-scale coordinates
         positions = sorted(rng.sample(range(0, span), nv))
-        nreads = rng.choice([0, 1, 2, 3, 5, 8, 12, 20, 30, 45])
+        nreads = rng.choice([0, 1, 2, 3, 5, 8, 12, 20, 30, 45]) if nv < 60 else rng.choice([12, 30, 45, 80])
         k = rng.choice([1, 1, 2, 2, 3, 3, 4, 5, 6, 7, 8, 15, 23])
         hot = rng.randrange(nv) if rng.random() < 0.5 else None
         reads = []
@@ -188,7 +190,7 @@ def gen_random(rng, count):
                 b = min(nv - 1, a + rng.randint(1, 4))
                 vs = list(range(a, b + 1))
             elif kind == "long":
-                b = min(nv - 1, a + rng.randint(3, nv + 3))
+                b = min(nv - 1, a + rng.randint(3, nv + 3))            # may span the whole read set
                 vs = list(range(a, b + 1))
             elif kind == "gapped":
                 b = min(nv - 1, a + rng.randint(1, 6))
@@ -212,6 +214,51 @@ def gen_random(rng, count):
         yield reads, k, pref, rng.random() < 0.6
 
 
+def gen_large(rng, count):
+    """large scale: 70..1030 variants (beyond 64 / 128 / 256 / 1024), dense local reads piling up on a few hot regions,
+    two-variant filler reads, and sparse long-range reads (mate-pair / linked-read / phased-block like: 2-4 variants far
+    apart, spanning 64..n variant indices); small caps; bridging on and off."""
+    sizes = [70, 100, 130, 200, 200, 260, 300, 400, 1030]
+    for ci in range(count):
+        nv = sizes[ci % len(sizes)] + rng.randint(0, 8)
+        positions = [1000 + 100 * i + rng.randint(0, 50) for i in range(nv)]
+        k = rng.choice([1, 2, 2, 3])
+        small = nv > 500
+        reads = []
+        if small:
+            # > 1024 covered variants with few reads: long contiguous reads tiling the region, k of them overlapping
+            tile = rng.choice([150, 260, 300])
+            for a in range(0, nv - 2, tile - rng.randint(1, 20)):
+                for j in range(rng.randint(1, k)):
+                    reads.append((0, list(range(min(nv - 2, a + j), min(nv, a + j + tile)))))
+        # dense local reads: k or k+1 overlapping reads on 1-3 hot regions (saturate whole 64-blocks or parts of them)
+        for _ in range(rng.randint(1, 3)):
+            start = rng.randrange(0, nv - 20)
+            length = rng.choice([8, 13, 30, 64, 70]) if not small else rng.choice([8, 13, 64])
+            for j in range(rng.randint(k, k + 1)):
+                a = min(nv - 3, start + j)
+                b = min(nv - 1, a + length)
+                reads.append((0, list(range(a, b + 1))))
+        # two-variant (sometimes three-variant) filler reads
+        step = rng.choice([2, 2, 3, 5]) if not small else rng.choice([7, 11])
+        for a in range(rng.randint(0, 2), nv - 2, step):
+            if rng.random() < 0.85:
+                reads.append((0, [a, a + 1] + ([a + 2] if rng.random() < 0.2 else [])))
+        # sparse long-range reads
+        for _ in range(rng.randint(1, 6)):
+            a = rng.randrange(0, nv // 3)
+            lo = min(nv - 1, max(a + 64, 2 * nv // 3))
+            b = rng.randrange(lo, nv) if rng.random() < 0.8 else min(nv - 1, a + rng.randint(64, 130))
+            b = min(nv - 1, max(b, a + 1))
+            inner = sorted(rng.sample(range(a + 1, b), min(b - a - 1, rng.choice([0, 0, 1, 2]))))
+            reads.append((rng.choice([0, 0, 1]), [a] + inner + [b]))
+        if rng.random() < 0.5:
+            reads.append((0, [0, nv - 1]))
+        rng.shuffle(reads)
+        pref = rng.choice([None, None, None, [1]])
+        yield [(src, [(positions[v], rng.randint(1, 60)) for v in vs]) for src, vs in reads], k, pref, rng.random() < 0.6
+
+
 def gen_malformed(rng, count):
     """a read with fewer than two variants: readselection must refuse (ValueError)"""
     for reads, k, pref, bridging in gen_random(rng, count):
@@ -226,8 +273,9 @@ def nontrivial(reads, result):
 
 
 # ------------------------------------------------------------------ direct correspondence
-def check_direct(ctx, cases, label, report=True):
-    """cases: list of (reads, k, pref, bridging). Returns (records, failing)."""
+def check_direct(ctx, cases, label, report=True, l2_select=None):
+    """cases: list of (reads, k, pref, bridging). Returns (records, failing).
+    l2_select(reads, k) -> bool: evaluate the model replay (L2) only for these cases (L1 is evaluated for all)."""
     recs, terms = [], []
     for ci, (reads, k, pref, bridging) in enumerate(cases):
         repeat = 1 if (label == "all" and ci % 9 == 4) else 0      # every 9th case: second call on the same ReadSet object
@@ -262,6 +310,15 @@ def check_direct(ctx, cases, label, report=True):
             ctx.tally("direct.identical_reads_present")
         if nvar > 14:
             ctx.tally("direct.more_than_14_variants")
+        for thr in (64, 128, 256, 1024):
+            if nvar > thr:
+                ctx.tally(f"direct.variants>{thr}")
+            if any(r[-1] - r[0] >= thr for r in ireads):
+                ctx.tally(f"direct.read_span>={thr}_variants")
+            if any(ireads[r][-1] - ireads[r][0] >= thr for r in result):
+                ctx.tally(f"direct.selected_read_span>={thr}_variants")
+        if any(r[-1] - r[0] >= 64 and len(r) <= 4 for r in ireads):
+            ctx.tally("direct.sparse_long_range_read_present")
         if reads and max(p for _, vs in reads for p, _ in vs) > 100000:
             ctx.tally("direct.genome_scale_positions")
         recs.append((reads, k, pref, bridging, result, items))
@@ -273,9 +330,24 @@ def check_direct(ctx, cases, label, report=True):
         ctx.tally("direct.preferred" if pref and any(s in pref for s, _ in reads) else "direct.nopreferred")
         ctx.tally("direct.rejected_reads", len(reads) - len(result))
         ctx.tally(f"direct.k={k}")
-    failing, errors = eval_checks("C07d", HEADER, CHECKS, terms, shard=250)
-    if errors:
-        raise RuntimeError("coq evaluation failed: " + errors[0][1])
+    if l2_select is None:
+        failing, errors = eval_checks("C07d", HEADER, CHECKS, terms, shard=250)
+        if errors:
+            raise RuntimeError("coq evaluation failed: " + errors[0][1])
+    else:
+        l1 = {k: v for k, v in CHECKS.items() if k.startswith("L1")}
+        l2 = {k: v for k, v in CHECKS.items() if not k.startswith("L1")}
+        failing, errors = eval_checks("C07dl1", HEADER, l1, terms, shard=6)
+        if errors:
+            raise RuntimeError("coq evaluation failed: " + errors[0][1])
+        sub = [i for i, r in enumerate(recs) if l2_select(r[0], r[1])]
+        ctx.tally(f"direct.{label}.L2_evaluated", len(sub))
+        ctx.tally(f"direct.{label}.L1_only", len(recs) - len(sub))
+        f2, errors = eval_checks("C07dl2", HEADER, l2, [terms[i] for i in sub], shard=3)
+        if errors:
+            raise RuntimeError("coq evaluation failed: " + errors[0][1])
+        for lab in l2:
+            failing[lab] = [sub[j] for j in f2[lab]]
     if report:
         report_direct(ctx, recs, failing)
     return recs, failing
@@ -457,6 +529,15 @@ def run(ctx):
     ctx.exhaustive = True
     recs, failing = check_direct(ctx, CORPUS + ex + rnd, "all")
     check_malformed(ctx, list(gen_malformed(rng, ctx.n(60, 600))))
+    # large-scale stream: L1 on every case, the model replay (L2) on the cases with <= 140 variants and every third larger one
+    large = list(gen_large(rng, ctx.n(54, 400)))
+    counter = {"n": 0}
+
+    def l2_select(reads, k):
+        nvar = len({p for _, vs in reads for p, _ in vs})
+        counter["n"] += 1
+        return nvar <= 140 or (nvar <= 420 and counter["n"] % 3 == 0)
+    check_direct(ctx, large, "large", l2_select=l2_select)
     for r in recs[:2] + recs[-2:]:
         ctx.sample({"reads": r[0], "k": r[1], "preferred": r[2], "bridging": r[3], "impl_selected": r[4],
                     "outer_iterations": len(r[5])})
